@@ -207,6 +207,15 @@ func c15Run(ch *verifx.Chooser) (obs, bad, sig string, steps int) {
 		RedirectURL: "http://localhost:1/cb",
 		Client:      &http.Client{Transport: c15RT{s}},
 	}
+	if ch.Free("client-has-own-redirect-policy", 2) == 1 {
+		// the caller's HTTP client comes with a redirect policy of its own (here: a hop limit)
+		cfg.Client.CheckRedirect = func(req *http.Request, via []*http.Request) error {
+			if len(via) > 3 {
+				return http.ErrUseLastResponse
+			}
+			return nil
+		}
+	}
 	initial := c15Static{}
 	cfg.InitialTokenSource = initial
 	clientCfg := []string{"cimd", "prereg-matching-issuer", "prereg-other-issuer", "prereg-no-issuer", "dcr"}[ch.Free("client-config", 5)]
